@@ -401,6 +401,52 @@ fn constant_pool_limit(rep: &mut Report) {
             break;
         }
     }
+    // de-duplicated strings / numbers around the 16-bit limit: the returned index must point at the constant
+    for fill in [0usize, 3, 65530, 65533, 65534, 65535] {
+        let mut b = BytecodeBuilder::new();
+        for k in 0..fill {
+            let _ = b.add_constant(Constant::Number(k as f64));
+        }
+        for k in 0..8usize {
+            let name = format!("str{}", k);
+            let js = JsString::from(name.as_str());
+            let before = b.constants.len();
+            match b.add_string(js.cheap_clone()) {
+                Ok(i) => {
+                    let ok = matches!(b.constants.get(i as usize), Some(Constant::String(x)) if x.as_str() == name);
+                    if !ok {
+                        rep.fail(&format!("{}add_string/ensures#ok_points_at_the_string", B),
+                                 &format!("pool of {} constants, add_string({:?}) -> index {} which holds {:?}", before, name, i,
+                                          b.constants.get(i as usize).map(|c| format!("{:?}", c).chars().take(40).collect::<String>())));
+                    }
+                    // asking again must give the same index and not grow the pool
+                    let len2 = b.constants.len();
+                    if b.add_string(js.cheap_clone()).ok() != Some(i) || b.constants.len() != len2 {
+                        rep.fail(&format!("{}add_string/ensures#grows_by_at_most_one", B), &format!("second add_string({:?}) at pool size {}", name, len2));
+                    }
+                }
+                Err(_) => {
+                    if before < 65535 { rep.fail(&format!("{}add_string/ensures#err_only_at_limit", B), &format!("refused at {} constants", before)); }
+                    if b.constants.len() != before { rep.fail(&format!("{}add_string/ensures#err_unchanged", B), &format!("pool changed on Err at {}", before)); }
+                }
+            }
+            let x = 1000.5 + k as f64;
+            let before = b.constants.len();
+            match b.add_number(x) {
+                Ok(i) => {
+                    let ok = matches!(b.constants.get(i as usize), Some(Constant::Number(y)) if y.to_bits() == x.to_bits());
+                    if !ok {
+                        rep.fail(&format!("{}add_number/ensures#ok_points_at_the_number", B),
+                                 &format!("pool of {} constants, add_number({}) -> index {}", before, x, i));
+                    }
+                }
+                Err(_) => {
+                    if before < 65535 { rep.fail(&format!("{}add_number/ensures#err_only_at_limit", B), &format!("refused at {} constants", before)); }
+                    if b.constants.len() != before { rep.fail(&format!("{}add_number/ensures#err_unchanged", B), &format!("pool changed on Err at {}", before)); }
+                }
+            }
+        }
+    }
     // add_chunk / add_excluded_keys go through the same path
     let mut b2 = BytecodeBuilder::new();
     let r = b2.add_excluded_keys(Vec::new());
